@@ -18,6 +18,17 @@ def field_stores(func):
             l = strip(n.ch[0])
             if l.k == 'MemberExpr' and l.get('record') == CFG_RECORD:
                 out.setdefault(l['member'], []).append(n)
+        elif n.k == 'CallExpr':
+            # &CFG->field handed to a callee that may write through it (a shared "set string option" helper)
+            pts = n.get('calleeParamTypes') or []
+            for i, a in enumerate(n.ch[1:]):
+                sa = strip(a) if a is not None else None
+                if sa is not None and sa.k == 'UnaryOperator' and sa.get('op') == '&':
+                    t = strip(sa.ch[0])
+                    if t is not None and t.k == 'MemberExpr' and t.get('record') == CFG_RECORD:
+                        pt = pts[i] if i < len(pts) else ''
+                        if 'const' not in pt.split('*')[0]:
+                            out.setdefault(t['member'], []).append(n)
     return out
 
 
@@ -122,7 +133,7 @@ def run(ctx):
             G = prog.require_func('snoopy_configuration_get')
             fresh = N is not None and any(
                 strip(arg(c, 0)).k == 'MemberExpr' and strip(arg(c, 0)).get('member') == 'configuration'
-                for c in N.calls('snoopy_configuration_setUninitialized'))
+                for g_ in common.with_helpers(prog, N) for c in g_.calls('snoopy_configuration_setUninitialized'))
             defaulted = bool(G.calls('snoopy_configuration_setDefaults')) and any(
                 n.k == 'MemberExpr' and n.get('member') == 'initialized'
                 for b in G.blocks.values() if b.cond is not None for n in b.cond.walk())
